@@ -45,12 +45,14 @@ SwapAmount(op) == CASE op = "swap1" -> 1 [] op = "swap2" -> 2 [] op = "swap4" ->
                     [] op = "swap32" -> 32 [] op = "swap64" -> 64
 IdentityOps == {"to_lanes", "from_lanes", "vec", "vzip", "to_scalars", "read_le", "write_le",
                 "as_u64x2", "from_u64x2", "u128x1_into_u32x4", "as_u64x4", "from_u64x4", "u64x4_as_u32x4x2", "u128x2_as_u64x2x2",
-                "u64x2x4_as_u32x4x4", "u128x4_as_u64x2x4"}
+                "u64x2x4_as_u32x4x4", "u128x4_as_u64x2x4",
+                "st_u128x1", "st_u32x8", "st_u128x2", "st_u32x16", "st_u64x8", "st_u128x4"}
 Sem(ty, op, a, b, i) ==
   CASE op \in {"add", "add_assign"} -> LET Add(x, y) == WAdd(x, y) IN Map2Words(a, b, WordBytes(ty), Add)
     [] op \in {"xor", "xor_assign"} -> BXor(a, b)
-    [] op = "and" -> BAnd(a, b)
-    [] op = "or" -> BOr(a, b)
+    [] op \in {"and", "and_assign"} -> BAnd(a, b)
+    [] op \in {"or", "or_assign"} -> BOr(a, b)
+    [] op = "eq" -> IF a = b THEN <<1>> ELSE <<0>>
     [] op = "andnot" -> BAnd(BNot(a), b)
     [] op = "not" -> BNot(a)
     [] op \in {"rotr7", "rotr8", "rotr11", "rotr12", "rotr16", "rotr20", "rotr24", "rotr25", "rotr32"} ->
